@@ -4,16 +4,17 @@ Not a registered check of its own: `run_race(prop_id, tier, seed)` is called by 
 (lookups by height / hash / tip agree) and C07 (reads answer like a plain list), which merge the
 coverage it returns into their evidence.
 
-  model    specs/HeaderStore/HSRace.tla, explored exhaustively by TLC twice: Locks = TRUE (the store
-           mutexes exactly where the code at HEAD takes them: behaviours are PREDICTIONS) and
-           Locks = FALSE (nobody locks: every interleaving at gate granularity: SCHEDULES only)
+  model    specs/HeaderStore/HSRace.tla, explored exhaustively by TLC for three lock placements:
+           "code" (the store mutexes exactly where the code at HEAD takes them: behaviours are
+           PREDICTIONS), "nolock" (nobody locks: every interleaving at gate granularity) and
+           "wsplit" (the writer lets go of its lock between two primitives): SCHEDULES only
   replay   harness/overlay/headerfs/zz_verif_hsrace_test.go: two real goroutines on real stores,
            every View/Update/ReadAt/Write/Truncate a gate (in front of and behind the primitive),
            mutex waits recognised from goroutine dumps; every edge of both graphs is replayed
   judge    HSRaceProps.tla on the OBSERVED traces: the value a finished read returned must be the
            answer of the plain lists before/after one of the operations that overlapped the read
 """
-import json, os, random, re, shutil, sys, time
+import json, os, random, shutil, subprocess, sys, time
 from .. import core, family
 
 SPEC = os.path.join(core.VERIF, "specs", "HeaderStore")
@@ -27,8 +28,11 @@ PROPS = {
     "C07": ["BlockLookupAtomic", "AncestorsAtomic", "LocatorAtomic", "FilterLookupAtomic"],
 }
 
-CODE_VERSION = json.load(open(os.path.join(SPEC, "code_version.json")))
-LOCKS = CODE_VERSION.get("RaceLocks", True)   # the model that predicts the code
+
+# Which behaviour of the code the model describes (the spec follows the code). A file of its own:
+# code_version.json of this directory is handed to HeaderStore.tla as a whole.
+CODE_VERSION = json.load(open(os.path.join(SPEC, "hsrace_code_version.json")))
+CODE_VERSION.update(json.loads(os.environ.get("VERIF_HSR_CODE_VERSION", "{}")))   # trying out a repair
 
 ASSUMPTIONS = [
     "one writer goroutine and one reader goroutine; the stores reach their media only through the "
@@ -84,7 +88,8 @@ def scenarios(tier):
                  reads=_reads(ids=[2, 3], heights=[2], fids=[2, 3], fheights=[2], tips="BLF", hs=[0, 1, 2, 2])),
             # two reads, one after the other, while one header is removed and another one added
             dict(lb=3, lf=1, mr=2, prog=[_op("RollbackB", 1), _op("AppendB", 2, [3])],
-                 reads=[("ChainTip", 0, 0), ("ByHeight", 2, 0), ("HeightFromHash", 2, 0), ("FetchHeader", 3, 0)]),
+                 reads=[("ChainTip", 0, 0), ("ByHeight", 2, 0), ("HeightFromHash", 2, 0), ("HeightFromHash", 3, 0),
+                        ("FetchHeader", 3, 0)]),
         ]
     else:
         n = 6
@@ -141,104 +146,137 @@ def label(act):
     return "%s.%s>%s" % (p, call, pc)
 
 
-def _drift(lines, observed):
-    """Predicted paths (Locks = code version): every step's label and raw store content must be the
-    model's. Steps the driver added after the path (calls run to their end) are not part of it."""
-    exp = {}
-    for l in lines:
-        d = json.loads(l)
-        exp[d["id"]] = d
-    n_steps = n_drift = skipped = 0
-    samples = []
-    for t in observed:
-        e = exp[t["id"]]
-        if t.get("error"):
-            continue
+class _Drift:
+    """Predicted paths (mode "code"): every step's label and raw store content must be the model's.
+    Steps the driver added after the path (calls run to their end) are not part of it."""
+
+    def __init__(self):
+        self.n_steps = self.n_drift = self.skipped = 0
+        self.samples = []
+
+    def add(self, e, t):
         steps = [s for s in t["steps"] if not s.get("note")]
-        skipped += sum(1 for s in steps if s["act"]["pc"] == "skip")
+        self.skipped += sum(1 for s in steps if s["act"]["pc"] == "skip")
         if e["sched"]:
-            continue
+            return
         bad = None
         if t.get("init_obs") != e["init_obs"] or len(steps) != len(e["steps"]):
             bad = 0
         else:
             for i, (a, b) in enumerate(zip(steps, e["steps"])):
-                n_steps += 1
+                self.n_steps += 1
                 if a["act"] != b["act"] or a["obs"] != b["obs"]:
                     bad = i + 1
                     break
         if bad is not None:
-            n_drift += 1
-            if len(samples) < 5:
-                samples.append({"trace": t["id"], "step": bad,
-                                "labels": [label(x["act"]) for x in steps[:max(bad, 1)]],
-                                "model": e["steps"][bad - 1] if bad else e["init_obs"],
-                                "code": steps[bad - 1] if bad and bad <= len(steps) else t.get("init_obs")})
-    return n_steps, n_drift, samples, skipped
+            self.n_drift += 1
+            if len(self.samples) < 5:
+                self.samples.append({"trace": t["id"], "step": bad,
+                                     "labels": [label(x["act"]) for x in steps[:max(bad, 1)]],
+                                     "model": e["steps"][bad - 1] if bad else e["init_obs"],
+                                     "code": steps[bad - 1] if bad and bad <= len(steps) else t.get("init_obs")})
+
+
+MODES = ("code", "nolock", "wsplit")
 
 
 def _explore(tier, rng, sc, n, scen):
-    defs = "ScenSeq == <<%s>>" % ",\n  ".join(scen_tla(s) for s in scen)
-    lines, info = [], {}
-    tot = dict(states=0, transitions=0, wall=0.0, pred_edges=0)
-    for locks in (LOCKS, not LOCKS):
-        predicted = locks == LOCKS
-        wd = os.path.join(sc, "tlc%d" % locks)
-        tlc = core.run_tlc([SPEC], "HSRace", dict(Locks=locks, N=n),
-                           workers=1, invariants=["TypeOK"], cfg_extra="CONSTANT Scen <- ScenSeq",
-                           extra_defs=defs, workdir=wd, timeout=3000, heap="4g")
-        if not tlc.ok:
-            raise core.MachineryError("TLC on HSRace failed: %s\n%s" % (tlc.error, tlc.stdout_tail[-3000:]))
-        g = core.Graph.load(tlc)
-        pp, _ = core.edge_cover(g, rng, max_len=200)
-        tmp = os.path.join(sc, "paths%d.ndjson" % locks)
-        core.write_paths(g, pp, tmp)
-        for line in open(tmp):
+    """One exhaustive TLC run over every lock placement (variable `mode` of HSRace.tla); returns the
+    path lines (mode "code": predictions, the others: schedules), per-mode numbers and totals."""
+    defs = "ScenSeq == <<%s>>\nModeSet == {%s}" % (",\n  ".join(scen_tla(s) for s in scen),
+                                                  ", ".join('"%s"' % m for m in MODES))
+    wd = os.path.join(sc, "tlc")
+    tlc = core.run_tlc([SPEC], "HSRace", dict(CODE_VERSION, N=n), workers=1, invariants=["TypeOK"],
+                       cfg_extra="CONSTANT Scen <- ScenSeq\nCONSTANT Modes <- ModeSet",
+                       extra_defs=defs, workdir=wd, timeout=3000, heap="4g")
+    if not tlc.ok:
+        raise core.MachineryError("TLC on HSRace failed: %s\n%s" % (tlc.error, tlc.stdout_tail[-3000:]))
+    g = core.Graph.load(tlc)
+    pp, _ = core.edge_cover(g, rng, max_len=200)
+    if tier == "thorough":
+        pp += core.random_walks(g, 6000, 80, rng)
+    tmp = os.path.join(sc, "paths.tmp.ndjson")
+    core.write_paths(g, pp, tmp)
+    info = {m: dict(states=0, edges=0, paths=0, model_violating_edges=0, deadlock_states=0) for m in MODES}
+
+    def gen():
+        for k, line in enumerate(open(tmp)):
             d = json.loads(line)
-            d["id"] = len(lines)
-            d["sched"] = not predicted      # behaviours of the variant that is not the code: schedules
-            d.pop("init", None)
-            lines.append(json.dumps(d, separators=(",", ":")))
-        dead = 0
-        if predicted:
-            ends = set(n_ for n_ in g.out if not g.out[n_])
-            dead = len(set(e[2] for e in g.edges if e[2] in ends and e[3]["rp"] == "blk" and e[3]["wp"] == "blk"))
-        info["locks_%s" % str(locks).lower()] = {
-            "states": tlc.distinct, "edges": len(g.edges), "paths": len(pp),
-            "model_violating_edges": sum(1 for e in g.edges if e[4]), "tlc_wall_s": round(tlc.wall, 1),
-            "depth": tlc.depth, "predicts_the_code": predicted, "deadlock_states": dead}
-        tot["states"] += tlc.distinct
-        tot["transitions"] += len(g.edges)
-        tot["wall"] += tlc.wall
-        if predicted:
-            tot["pred_edges"] = len(g.edges)
-        shutil.rmtree(wd, ignore_errors=True)
-    return lines, info, tot
+            m = d.pop("init")["mode"]
+            d["id"] = k
+            d["sched"] = m != "code"     # lock placements that are not the code's: schedules only
+            info[m]["paths"] += 1
+            yield json.dumps(d, separators=(",", ":"))
+    shards = _shard(gen(), len(pp), sc)
+    os.unlink(tmp)
+    node_mode = {}
+    for n0, _ in g.inits:
+        node_mode[n0] = g.init_state[n0]["mode"]
+    order = list(node_mode)
+    while order:                      # modes never change along an edge
+        x = order.pop()
+        for ei in g.out[x]:
+            t = g.edges[ei][2]
+            if t not in node_mode:
+                node_mode[t] = node_mode[x]
+                order.append(t)
+    for x, m in node_mode.items():
+        info[m]["states"] += 1
+        if not g.out[x]:
+            info[m]["terminal"] = info[m].get("terminal", 0) + 1
+    dead = set()
+    for e in g.edges:
+        m = node_mode[e[0]]
+        info[m]["edges"] += 1
+        if e[4]:
+            info[m]["model_violating_edges"] += 1
+        if e[3]["rp"] == "blk" and e[3]["wp"] == "blk" and not g.out[e[2]]:
+            dead.add((m, e[2]))
+    for m, _ in dead:
+        info[m]["deadlock_states"] += 1
+    if "code" in info:
+        info["code"]["predicts_the_code"] = True
+    tot = dict(states=tlc.distinct, transitions=len(g.edges), wall=tlc.wall, depth=tlc.depth)
+    shutil.rmtree(wd, ignore_errors=True)
+    return shards, info, tot
 
 
-def _replay_sharded(binary, lines, cfg_fn, sc):
+def _shard(lines, n_lines, sc):
     """Goroutine dumps stop the world of one process, so the paths are spread over several driver
-    PROCESSES (two path workers each) instead of many goroutines of one."""
-    from concurrent.futures import ThreadPoolExecutor
+    PROCESSES (two path workers each) instead of many goroutines of one. Returns the path files."""
     nproc = max(1, min(int(os.environ.get("VERIF_HSR_PROCS", "0")) or max(2, (os.cpu_count() or 4) // 2),
-                       (len(lines) + 49) // 50))
-    shards = [lines[i::nproc] for i in range(nproc)]
-
-    def one(i):
+                       (n_lines + 49) // 50))
+    files = []
+    for i in range(nproc):
         d = os.path.join(sc, "p%d" % i)
         os.makedirs(d)
-        pf = os.path.join(d, "paths.ndjson")
-        open(pf, "w").write("\n".join(shards[i]) + "\n")
-        obs, _ = family.run_driver(binary, "TestVerifHSRaceReplay", pf, os.path.join(d, "obs.ndjson"), d,
-                                   env_extra={"VERIF_HSR_CONFIG": cfg_fn, "VERIF_HSR_WORKERS": "2"}, timeout=7200)
-        shutil.rmtree(d, ignore_errors=True)
-        return obs
+        files.append(open(os.path.join(d, "paths.ndjson"), "w"))
+    for k, line in enumerate(lines):
+        files[k % nproc].write(line + "\n")
+    for f in files:
+        f.close()
+    return [f.name for f in files]
 
-    with ThreadPoolExecutor(nproc) as ex:
-        parts = list(ex.map(one, range(nproc)))
-    observed = [t for part in parts for t in part]
-    observed.sort(key=lambda t: t["id"])
-    return observed, nproc
+
+def _replay_sharded(binary, shards, cfg_fn):
+    """Runs one driver process per path file; returns the files with the observed traces (same order
+    of lines as the path files)."""
+    from concurrent.futures import ThreadPoolExecutor
+
+    def one(pf):
+        d = os.path.dirname(pf)
+        out = os.path.join(d, "obs.ndjson")
+        env = core.go_env()
+        env.update({"VERIF_PATHS": pf, "VERIF_OUT": out, "VERIF_SCRATCH": d, "VERIF_HSR_CONFIG": cfg_fn,
+                    "VERIF_HSR_WORKERS": "2"})
+        p = subprocess.run([binary, "-test.run", "^TestVerifHSRaceReplay$", "-test.count=1", "-test.timeout", "7200s"],
+                           cwd=d, env=env, stdout=subprocess.PIPE, stderr=subprocess.STDOUT, text=True)
+        if p.returncode != 0 or not os.path.exists(out):
+            raise core.MachineryError("HSRace driver failed rc=%d:\n%s" % (p.returncode, p.stdout[-6000:]))
+        return out
+
+    with ThreadPoolExecutor(len(shards)) as ex:
+        return list(ex.map(one, shards))
 
 
 def is_race_replay(replay_file):
@@ -257,6 +295,9 @@ def _lines_from_replay(replay_file):
     return [json.dumps({"id": 0, "init_obs": tr["init_obs"], "steps": steps, "sched": True})], tr.get("config")
 
 
+JUDGE_CHUNK = 400000     # trace lines per ObsCheck run
+
+
 def run_race(prop_id, tier, seed, replay=None):
     """Runs the slice for property prop_id ("C01" or "C07"). Prints KNOWN-FINDING / VIOLATION lines.
     Returns (rc, coverage): rc 0 held, 1 violation; machinery problems raise core.MachineryError."""
@@ -265,38 +306,95 @@ def run_race(prop_id, tier, seed, replay=None):
     sc = core.scratch("hsr")
     try:
         n, scen = scenarios(tier)
-        info, tot = {}, dict(states=0, transitions=0, wall=0.0, pred_edges=0)
+        info, tot = {}, dict(states=0, transitions=0, wall=0.0, depth=0)
         if replay:
             lines, cfg = _lines_from_replay(replay)
             if cfg:
                 n, scen = cfg["N"], cfg["scen"]
+            shards = _shard(lines, len(lines), sc)
         else:
-            lines, info, tot = _explore(tier, rng, sc, n, scen)
+            shards, info, tot = _explore(tier, rng, sc, n, scen)
         cfg = {"N": n, "scen": [{"lb": s["lb"], "lf": s["lf"], "prog": s["prog"]} for s in scen]}
         cfg_fn = os.path.join(sc, "config.json")
         json.dump(cfg, open(cfg_fn, "w"))
         binary = family.build_overlay_test(PKG, [DRIVER], os.path.join(sc, "headerfs.test"))
         t1 = time.time()
-        observed, nproc = _replay_sharded(binary, lines, cfg_fn, sc)
+        obs_files = _replay_sharded(binary, shards, cfg_fn)
         t_drv = time.time() - t1
-        errs = [t for t in observed if t.get("error")]
-        if errs:
+
+        # one pass over (predicted path, observed trace) pairs: drift, counters, and the traces
+        # reduced to what HSRaceProps looks at (labels + initial lengths), judged by TLC in chunks
+        dr = _Drift()
+        verdict = {"violations": [], "known": {}, "n_lines": 0, "wall": 0.0}
+        cnt = dict(paths=0, pred=0, steps=0, dumps=0, stuck=0)
+        samples, stuck_sample, slim, slim_lines, first_err, n_err = [], None, [], 0, None, 0
+
+        def flush():
+            nonlocal slim, slim_lines
+            if not slim:
+                return
+            v = family.judge([SPEC], "HSRaceProps", PROPS[prop_id], prop_id, slim, label=label,
+                             known=[] if os.environ.get("VERIF_HSR_IGNORE_KNOWN") else None)
+            verdict["violations"] += v["violations"]
+            verdict["n_lines"] += v["n_lines"]
+            verdict["wall"] += v["wall"]
+            for kid, k in v["known"].items():
+                if kid in verdict["known"]:
+                    verdict["known"][kid]["count"] += k["count"]
+                else:
+                    verdict["known"][kid] = k
+            slim, slim_lines = [], 0
+
+        for pf, of in zip(shards, obs_files):
+            for el, ol in zip(open(pf), open(of)):
+                e, t = json.loads(el), json.loads(ol)
+                if e["id"] != t["id"]:
+                    raise core.MachineryError("HSRace driver output out of order")
+                if t.get("error"):
+                    n_err += 1
+                    first_err = first_err or t["error"]
+                    continue
+                cnt["paths"] += 1
+                cnt["pred"] += 0 if e["sched"] else 1
+                cnt["steps"] += len(t["steps"])
+                cnt["dumps"] += t.get("dumps", 0)
+                dr.add(e, t)
+                smp = None
+                if t.get("stuck"):
+                    cnt["stuck"] += 1
+                    if stuck_sample is None:
+                        stuck_sample = smp = {"stuck": t["stuck"][:1500]}
+                elif len(samples) < 2:
+                    smp = {}
+                if smp is not None:
+                    smp.update({"path": [label(s["act"]) for s in t["steps"]],
+                                "last_obs": t["steps"][-1]["obs"] if t["steps"] else t.get("init_obs")})
+                    samples.append(smp)
+                slim.append({"id": t["id"], "init_obs": {"l0": t["init_obs"]["l0"]},
+                             "steps": [{"act": s["act"], "obs": {"l0": s["obs"]["l0"]}} for s in t["steps"]]})
+                slim_lines += len(t["steps"]) + 1
+                if slim_lines >= JUDGE_CHUNK:
+                    flush()
+        flush()
+        if n_err:
             raise core.MachineryError("HSRace driver: %d paths ended in a driver error, e.g. %s" % (
-                len(errs), errs[0]["error"][:1500]))
-        n_steps, n_drift, dsamples, skipped = _drift(lines, observed)
-        if n_drift:
+                n_err, first_err[:1500]))
+        if dr.n_drift:
             print("drift: %d of %d predicted HSRace paths left the model's prediction (not a verdict)" % (
-                n_drift, sum(1 for l in lines if '"sched":false' in l)), file=sys.stderr)
-        # judged by TLC with HSRaceProps; the raw store content is not needed for that
-        slim = [{"id": t["id"], "init_obs": {"l0": t["init_obs"]["l0"]},
-                 "steps": [{"act": s["act"], "obs": {"l0": s["obs"]["l0"]}} for s in t["steps"]]} for t in observed]
-        verdict = family.judge([SPEC], "HSRaceProps", PROPS[prop_id], prop_id, slim, label=label)
-        full = {t["id"]: t for t in observed}
+                dr.n_drift, cnt["pred"]), file=sys.stderr)
         rc = 0
         for kid, k in sorted(verdict["known"].items()):
             print("KNOWN-FINDING: property=%s %s [%s; seen on %d replayed traces, e.g. %s]" % (
                 prop_id, k["entry"]["what_fails"], kid, k["count"], " ".join(k["example"])))
-        for v in verdict["violations"][:10]:
+        report = verdict["violations"][:10]
+        if report:
+            want, full = set(v["trace"] for v in report), {}
+            for of in obs_files:
+                for ol in open(of):
+                    t = json.loads(ol)
+                    if t["id"] in want:
+                        full[t["id"]] = t
+        for v in report:
             tr = dict(full[v["trace"]])
             tr["config"] = cfg
             fn = core.save_replay(prop_id, {"property": prop_id, "props": v["props"], "step": v["step"],
@@ -304,27 +402,20 @@ def run_race(prop_id, tier, seed, replay=None):
             print("VIOLATION property=%s replay=%s" % (prop_id, fn))
             print("  violated: %s at step %d of: %s" % (",".join(v["props"]), v["step"], " ".join(v["labels"])))
             rc = 1
-        stuck = [t for t in observed if t.get("stuck")]
-        samples = []
-        for t in observed[:2] + stuck[:1]:
-            samples.append({"path": [label(s["act"]) for s in t["steps"]],
-                            "last_obs": t["steps"][-1]["obs"] if t["steps"] else t.get("init_obs"),
-                            **({"stuck": t["stuck"][:1500]} if t.get("stuck") else {})})
         cov = {
             "states": tot["states"], "transitions": tot["transitions"],
-            "traces_validated_against_impl": len(observed),
-            "paths": len(lines), "predicted_paths": sum(1 for l in lines if '"sched":false' in l),
-            "schedule_paths": sum(1 for l in lines if '"sched":true' in l),
-            "replayed_steps": sum(len(t["steps"]) for t in observed),
-            "schedule_commands_not_applicable": skipped,
-            "goroutine_dumps": sum(t.get("dumps", 0) for t in observed), "driver_processes": nproc,
-            "paths_ending_with_both_goroutines_parked_on_the_store_mutex": len(stuck),
-            "drift": {"paths": n_drift, "steps_compared": n_steps, "samples": dsamples},
+            "traces_validated_against_impl": cnt["paths"],
+            "paths": cnt["paths"], "predicted_paths": cnt["pred"], "schedule_paths": cnt["paths"] - cnt["pred"],
+            "replayed_steps": cnt["steps"],
+            "schedule_commands_not_applicable": dr.skipped,
+            "goroutine_dumps": cnt["dumps"], "driver_processes": len(shards),
+            "paths_ending_with_both_goroutines_parked_on_the_store_mutex": cnt["stuck"],
+            "drift": {"paths": dr.n_drift, "steps_compared": dr.n_steps, "samples": dr.samples},
             "judged_lines_by_tlc": verdict["n_lines"],
             "known_findings_seen": {k: v["count"] for k, v in verdict["known"].items()},
             "new_violations": len(verdict["violations"]),
-            "models": info, "scenarios": [scen_tla(s) for s in scen] if not replay else [],
-            "tlc_wall_s": round(tot["wall"], 1), "driver_wall_s": round(t_drv, 1),
+            "models": info, "code_version": CODE_VERSION, "scenarios": [scen_tla(s) for s in scen] if not replay else [],
+            "tlc_wall_s": round(tot["wall"], 1), "tlc_depth": tot["depth"], "driver_wall_s": round(t_drv, 1),
             "judge_wall_s": round(verdict["wall"], 1), "wall_s": round(time.time() - t0, 1),
             "samples": samples, "assumptions": ASSUMPTIONS,
         }
